@@ -21,7 +21,7 @@
 (* CHA, CR, cursor moves and DECRC clear it; EL/ED do not.  Erasing uses   *)
 (* the current background (BCE).                                           *)
 (***************************************************************************)
-EXTENDS Sgr
+EXTENDS Sgr, Width
 
 BlankCell(gr) == <<32, <<0, gr[BG], 0, 0, 0, 0, 0, 0>>>>
 Blank == <<32, DefaultGr>>
@@ -46,15 +46,37 @@ ScrollUp(t) ==
 
 LineFeed(t) == LET u == [t EXCEPT !.pend = FALSE] IN IF t.r = t.h - 1 THEN ScrollUp(u) ELSE [u EXCEPT !.r = t.r + 1]
 
-PutChar(t, cp) ==
+\* Character widths (Width.tla): a double-width character takes two cells, <<cp, gr>> and its right half <<0 - cp, gr>>;
+\* a zero-width character takes none (it combines with the cell before it, which this model does not look into).
+\* Writing over one half of a double-width character blanks the other half.
+IsRightHalf(cell) == cell[1] < 0
+HealRow(row, c, w) ==       \* row with the partner half of whatever occupies 1-based column c blanked
+  [k \in 1..w |->
+     IF k = c - 1 /\ c >= 2 /\ IsRightHalf(row[c]) THEN <<32, row[k][2]>>
+     ELSE IF k = c + 1 /\ c + 1 <= w /\ IsRightHalf(row[k]) /\ ~IsRightHalf(row[c]) /\ row[k][1] = 0 - row[c][1] THEN <<32, row[k][2]>>
+     ELSE row[k]]
+PutNarrow(t, cp) ==
   LET u == IF t.pend THEN [LineFeed(t) EXCEPT !.c = 0] ELSE t
-      v == [u EXCEPT !.scr[u.r + 1][u.c + 1] = <<cp, u.gr>>]
+      healed == HealRow(u.scr[u.r + 1], u.c + 1, u.w)
+      v == [u EXCEPT !.scr[u.r + 1] = [healed EXCEPT ![u.c + 1] = <<cp, u.gr>>]]
   IN IF u.c = u.w - 1 THEN [v EXCEPT !.pend = TRUE] ELSE [v EXCEPT !.c = u.c + 1, !.pend = FALSE]
+PutWide(t, cp) ==
+  LET u0 == IF t.pend THEN [LineFeed(t) EXCEPT !.c = 0] ELSE t
+      u == IF u0.c = u0.w - 1 /\ u0.w >= 2 THEN [LineFeed(u0) EXCEPT !.c = 0] ELSE u0     \* no room for two cells: wraps first
+      h1 == HealRow(u.scr[u.r + 1], u.c + 1, u.w)
+      h2 == IF u.c + 2 <= u.w THEN HealRow(h1, u.c + 2, u.w) ELSE h1
+      row == [k \in 1..u.w |-> IF k = u.c + 1 THEN <<cp, u.gr>> ELSE IF k = u.c + 2 THEN <<0 - cp, u.gr>> ELSE h2[k]]
+      v == [u EXCEPT !.scr[u.r + 1] = row]
+  IN IF u.c + 2 >= u.w THEN [v EXCEPT !.c = u.w - 1, !.pend = TRUE] ELSE [v EXCEPT !.c = u.c + 2, !.pend = FALSE]
+PutChar(t, cp) == IF W(cp) = 0 THEN t ELSE IF W(cp) = 2 THEN PutWide(t, cp) ELSE PutNarrow(t, cp)
 
 MoveTo(t, r, c) == [t EXCEPT !.r = Clamp(r, 0, t.h - 1), !.c = Clamp(c, 0, t.w - 1), !.pend = FALSE]
 
-EraseCells(t, row, c1, c2) ==    \* 1-based columns c1..c2 of 1-based row
-  [t EXCEPT !.scr[row] = [c \in 1..t.w |-> IF c >= c1 /\ c <= c2 THEN BlankCell(t.gr) ELSE t.scr[row][c]]]
+EraseCells(t, row, c1, c2) ==    \* 1-based columns c1..c2 of 1-based row (a double-width character cut by an edge goes entirely)
+  LET r0 == t.scr[row]
+      r1 == IF c1 >= 1 /\ c1 <= t.w THEN HealRow(r0, c1, t.w) ELSE r0
+      r2 == IF c2 >= 1 /\ c2 <= t.w THEN HealRow(r1, c2, t.w) ELSE r1
+  IN [t EXCEPT !.scr[row] = [c \in 1..t.w |-> IF c >= c1 /\ c <= c2 THEN BlankCell(t.gr) ELSE r2[c]]]
 EraseRows(t, r1, r2) ==
   [t EXCEPT !.scr = [r \in 1..t.h |-> IF r >= r1 /\ r <= r2 THEN BlankRow(t.w, t.gr) ELSE t.scr[r]]]
 
